@@ -300,6 +300,10 @@ func (df *DataFile) readToBuf(blockID uint32, offset uint32, buf *bytebufferpool
 	for {
 		// 当前 block 绝对偏移量
 		off := int64(blockID) * blockSize
+		// 文件在当前 block 之前结束
+		if off >= fileSize {
+			return io.EOF
+		}
 		// 当前 block 实际大小
 		size := uint32(min(fileSize-off, blockSize))
 
@@ -312,10 +316,10 @@ func (df *DataFile) readToBuf(blockID uint32, offset uint32, buf *bytebufferpool
 			return err
 		}
 
-		// 对当前 chunk 解码
-		data, chunkType, err := DecodeChunk(block[offset:])
+		// 对当前 chunk 解码, 仅允许访问当前 block 的有效数据
+		data, chunkType, err := DecodeChunk(block[offset:size])
 		if err != nil {
-			return err
+			return chunkError(err, off+int64(size), fileSize)
 		}
 		buf.B = append(buf.B, data...)
 		// last chunk
@@ -387,11 +391,15 @@ func (reader *DataReader) next() ([]byte, *DataPos, error) {
 	for {
 		// 当前 block 绝对偏移量
 		off := int64(reader.blockID) * blockSize
+		// 文件在当前 block 之前结束
+		if off >= fileSize {
+			return nil, nil, reader.eof(cnt)
+		}
 		// 当前 block 实际大小
 		size := uint32(min(fileSize-off, blockSize))
 
 		if reader.offset >= size {
-			return nil, nil, io.EOF
+			return nil, nil, reader.eof(cnt)
 		}
 
 		// 从共享缓冲区中读取
@@ -400,10 +408,10 @@ func (reader *DataReader) next() ([]byte, *DataPos, error) {
 			return nil, nil, err
 		}
 
-		// 对当前 chunk 解码
-		data, chunkType, err := DecodeChunk(reader.blockBuf[reader.offset:])
+		// 对当前 chunk 解码, 仅允许访问当前 block 的有效数据
+		data, chunkType, err := DecodeChunk(reader.blockBuf[reader.offset:size])
 		if err != nil {
-			return nil, nil, err
+			return nil, nil, chunkError(err, off+int64(size), fileSize)
 		}
 		res = append(res, data...)
 		cnt++
@@ -424,6 +432,23 @@ func (reader *DataReader) next() ([]byte, *DataPos, error) {
 	pos.Size = cnt*chunkHeaderSize + uint32(len(res))
 
 	return res, pos, nil
+}
+
+// 记录在首个 chunk 之后缺失后续 chunk 视为文件末尾的不完整写入
+func (reader *DataReader) eof(cnt uint32) error {
+	if cnt > 0 {
+		return io.ErrUnexpectedEOF
+	}
+	return io.EOF
+}
+
+// chunk 超出其所在 block 的有效数据时:
+// 该 block 位于文件末尾则属于不完整的末尾写入, 返回 io.ErrUnexpectedEOF, 否则视为数据损坏
+func chunkError(err error, blockEnd int64, fileSize int64) error {
+	if err == io.ErrUnexpectedEOF && blockEnd < fileSize {
+		return ErrInvalidCRC
+	}
+	return err
 }
 
 func (df *DataFile) Size() int64 {
